@@ -5,8 +5,8 @@ A change of the keyword wiring, of the date helpers' zone handling, of the isins
 the output paths or of the integer-list normaliser changes the generated file and one of these
 lemmas stops type-checking.
 
-Recorded (unrepaired) defects would be stated *relative to* `Known.*` (mirrors `known_findings.json`; none
-is left for C15): a known
+Recorded (unrepaired) defects would be stated *relative to* `Known.*` (mirrors `known_findings.json`; D53
+is the open one): a known
 mismatch builds, any new one breaks the lemma.
 -/
 import SnowModel.Core.Rrule
@@ -14,6 +14,8 @@ import SnowModel.Generated.Schedule
 import SnowModel.Generated.Memorable
 import SnowModel.Generated.MemoState
 import SnowModel.Generated.DateParse
+import SnowModel.Generated.CallSite
+import SnowModel.Generated.MacroParse
 
 namespace SnowModel.Props.C15Bridge
 open SnowModel.Rrule
@@ -25,6 +27,9 @@ def wiringMismatches : List (Kw × Kw) := []
     to UTC; date-valued arguments take the start's zone -/
 def startZone : String := "timezone.utc"
 def dateArgZone : String := "self.start_date.tzinfo"
+/-- D53 (open): `_at_start_time` takes `self.start_date.time()` with its microseconds, while
+    `rrule` drops the microseconds of `dtstart` (`atStartTime … sUs …` in the model) -/
+def atStartTimeExpr : String := "datetime.combine(d, self.start_date.time(), tzinfo=self.start_date.tzinfo)"
 end Known
 
 /-- renames that are part of the design, not mismatches: `dtstart` is the normalised
@@ -93,7 +98,7 @@ theorem helpers_zone_pin :
       [("_normalize_start_date", "time", Known.startZone),
        ("_normalize_start_date", "start_date.replace", Known.startZone),
        ("_at_start_time", "datetime.combine", Known.dateArgZone)] ∧
-    Gen.Schedule.atStartTime = ["datetime.combine(d, self.start_date.time(), tzinfo=self.start_date.tzinfo)"] := by
+    Gen.Schedule.atStartTime = [Known.atStartTimeExpr] := by
   decide
 
 /-- `_normalize_until` as modelled by `normUntil`: datetime string → `parse_datetimespec`; date
@@ -197,6 +202,28 @@ theorem memo_state_pin :
        "current_parent, value = self.instance_states.get(uniq_name, (None, None))",
        "if current_parent != parent_obj or value is None: ;     value = make_state_func() ;     self.instance_states[uniq_name] = [parent_obj, value]",
        "return value"] := rfl
+
+/-- the context identifier of a memorable call is the identity of the parsed value object — a
+    `StructuredValue` fixes it when it is constructed, a `SimpleValue` (formula) sets it while it
+    renders and restores the previous one afterwards -/
+theorem call_site_identity_pin :
+    Gen.CallSite.contextIdentifier =
+      [("SimpleValue", "context.unique_context_identifier = str(id(self))"),
+       ("SimpleValue", "context.unique_context_identifier = old_context_identifier"),
+       ("StructuredValue", "self.unique_context_identifier = str(id(self))"),
+       ("StructuredValue", "context.unique_context_identifier = self.unique_context_identifier")] := by
+  decide
+
+/-- `include_macro` looks the macro up, checks for cycles and then *parses* its inclusions,
+    fields and friends — every time it is called (`includeMacro` in the model): no stored result -/
+theorem macro_expansion_pin :
+    Gen.MacroParse.includeMacroSteps =
+      ["macro = context.macros.get(name)", "if not macro", "parsed_macro = parse_element(...)",
+       "if name not in parent_macros and name in context.macros_being_expanded",
+       "if name in parent_macros", "fields = []", "friends = []",
+       "context.macros_being_expanded.append(name)",
+       "try: parse_inclusions(macro, fields, friends, context, parent_macros + (name,)) ; fields.extend(parse_fields(parsed_macro.fields or {}, context)) ; friends.extend(parse_friends(parsed_macro.friends or [], context))",
+       "return (_dedupe_field_list(fields), friends)"] := rfl
 
 /-- start: string → precision from its characters; `datetime` → datetime; `date` → date -/
 theorem start_pin :
